@@ -936,7 +936,10 @@ bool XMLReader::getSpaces(XMLBuffer& toFill)
                 //  true  : 'curCh' must be xA  or xD
                 //  false : 'curCh' must be x20 or x9
                 //
-                if ( ( curCh & (chCR|chLF) & ~(0x9|0x20) ) == 0 )
+                //  (not used any more: in XML 1.1 x85 and x2028 are white space
+                //  for this reader too, and x2028 has neither bit set)
+                //
+                if ( (curCh == chSpace) || (curCh == chHTab) )
                 {
                     fCurCol++;
                 } else
@@ -1080,7 +1083,7 @@ bool XMLReader::skipSpaces(bool& skippedSomething, bool inDecl)
                 //  true  : 'curCh' must be xA  or xD
                 //  false : 'curCh' must be x20 or x9
                 //
-                if ( ( curCh & (chCR|chLF) & ~(0x9|0x20) ) == 0 )
+                if ( (curCh == chSpace) || (curCh == chHTab) )
                 {
                     fCurCol++;
                 } else
@@ -1164,7 +1167,7 @@ bool XMLReader::skippedSpace()
         //  true  : 'curCh' must be xA  or xD
         //  false : 'curCh' must be x20 or x9
         //
-        if ( ( curCh & (chCR|chLF) & ~(0x9|0x20) ) == 0 )
+        if ( (curCh == chSpace) || (curCh == chHTab) )
         {
             fCurCol++;
         } else
